@@ -142,6 +142,14 @@ CHECKS = {
         "bound_text": "5 token streams (0..7 tokens, one with a lexer error); histories of <=4 (quick) / <=6 (thorough) operations from a new lexer; 2..3 operations from any state satisfying the representation invariant (cursor and <=3 saved cursors symbolic); 28 combinator shapes (depth <= 3) over 3 stub sub-parsers that succeed/fail and consume 0..2 tokens as an arbitrary function of (stub, position)",
         "assumptions": ["Commit/Rollback are only called after a matching Snapshot (the combinators' usage)", "Not is exercised only under Assert, as in the grammar", "stub sub-parsers consume at least one token when they succeed"],
     },
+    "C17": {
+        "runs": [
+            {"harness": ["internal/vsess.VerifC17Toa", "internal/vsess.VerifC17Aton", "internal/vsess.VerifC17Iter", "internal/vsess.VerifC17Read"], "pkgs": ["./internal/vsess"], "fuel": 8000000,
+             "params_quick": {"polykinds": 4}, "covers": {"VerifC17Toa": ["done"], "VerifC17Aton": ["done"], "VerifC17Iter": ["done"], "VerifC17Read": ["done"]}},
+        ],
+        "bound_text": "toa/write: scalars of symbolic kind and payload (ints, float bit patterns, bools, nil), strings of <=2 symbolic bytes, arrays nested <=2, functions; aton(toa(n)): all 64-bit n with the decimal rendering modelled as an opaque injective function, plus 14 boundary ints and 15 floats concretely through the real strconv; fromto: symbolic a with b-a in -2..4; elems/indices: containers as for toa; read: <=3 lines of <=2 symbolic bytes, arbitrary chunking of the input stream",
+        "assumptions": ["strconv.Itoa/Atoi are inverse on ints (trusted standard library); aton(toa(x))==x for floats is only sampled concretely (shortest-float formatting and parsing are not encoded: outside the claim)", "stdin is modelled as a stream delivered in solver-chosen chunks; a bufio.Reader owns what it has buffered"],
+    },
     "C18": {
         "runs": [
             {"harness": ["memory.VerifC18History"], "pkgs": ["./memory"], "fuel": 3000000,
@@ -175,6 +183,7 @@ CHECKS = {
 }
 
 LEVEL_TEXT = {
+    "C17": "The built-ins are reached through the real pipeline with arguments of symbolic kind and payload; toa against captured write output, aton/toa round trip, fromto/elems/indices against explicit expectations and the reference evaluator, and successive read() calls against a stdin model whose chunk sizes are solver variables. Float round trip is outside the encoding and only sampled.",
     "C10": "Operation sequences over variables that share structure are executed symbolically (indices and element values symbolic) next to the reference evaluator, which never shares storage; after each operation every variable is rendered on both sides. The engine models Go slices with their real capacity growth, so whether an append writes into an operand's spare capacity is decided as in the native build.",
     "C08": "Sessions are executed symbolically statement by statement next to the reference evaluator; whether and how the injected statement fails is decided by a solver variable (operand kind and value), so failing and non-failing runs of every placement are both explored; after the failure the machine state is read through accessors and every later statement must equal the reference in value, output and error.",
     "C02": "Differential symbolic execution against the reference evaluator (generators as internal iteration): generator definitions, compositions and consumers are enumerated by forking, yielded values are symbolic, generators write trace marks so that the compared output fixes the interleaving of generator and loop body; loop values, collected values and the session state afterwards are compared for all values.",
